@@ -1,4 +1,5 @@
 import Driver.C20
+import Driver.Sec
 import Driver.C01
 import Driver.C04
 import Driver.C16
@@ -32,6 +33,7 @@ def main (args : List String) : IO UInt32 := do
   let stdout ← IO.getStdout
   match args with
   | ["C01"] => loopSt stdin stdout C01.step {}; return 0
+  | ["C03"] => loopSt stdin stdout Sec.step {}; return 0
   | ["C04"] => loopSt stdin stdout C04.step {}; return 0
   | ["C16"] => loop stdin stdout C16.step; return 0
   | ["C19"] => loopSt stdin stdout C19.step {}; return 0
